@@ -48,7 +48,8 @@ def preload():
     "import (never call) everything the children need, so that a fork is cheap and starts pristine"
     import nbformat  # noqa
     import tornado.httpclient, tornado.httpserver, tornado.simple_httpclient, tornado.web  # noqa
-    import nbdime.webapp.nbdimeserver  # noqa
+    import nbdime.webapp.nbdimeserver, nbdime.webapp.nbdiffweb, nbdime.webapp.nbmergeweb  # noqa
+    import nbdime.webapp.nbdifftool, nbdime.webapp.nbmergetool  # noqa
     import nbdime.patching, nbdime.diff_utils, nbdime.merging.notebooks, nbdime.diffing.notebooks  # noqa
     import contracts.specs  # noqa
     from . import mergespace, mergeoracles  # noqa
@@ -212,6 +213,15 @@ def gen_mode(rnd, index):
         mode['out_pre'] = rnd.choice([None, 'junk', 'nb'])
     if kind == 'mergeweb':
         mode['show_base'] = rnd.random() < 0.7
+    # 'cli': the server parameters are what the real entry point (nbdime.webapp.<app>.main / main_parsed /
+    # handle_gitrefs) hands to run_server for a command line; 'direct': parameters built by the harness
+    mode['via'] = 'cli' if rnd.random() < 0.7 else 'direct'
+    if kind == 'mergetool' and not mode['out']:
+        mode['via'] = 'direct'                      # nbmergetool's command line always names the merged file
+    if kind == 'plain' and mode['via'] == 'cli':
+        mode['entry'] = rnd.choice(['server', 'diffweb'])
+        if mode['entry'] == 'server':
+            mode['closable'] = False                # python -m nbdime.webapp.nbdimeserver is never closable
     if kind in ('difftool', 'mergetool'):
         mode['names'] = rnd.choice(['T1', 'T2'])
         mode['argform'] = rnd.choice(['rel', 'abs', 'file', 'blob'] if kind == 'difftool' else ['rel', 'abs'])
@@ -466,9 +476,92 @@ class _Sites:
             lg.propagate = True
 
 
+def _tool_values(mode, root):
+    """the values a tool server gets for its notebooks: path strings, open files or named blobs"""
+    work = os.path.join(root, 'work')
+    names, _ = tool_args(mode)
+    args = {}
+    for k, name in names.items():
+        path = os.path.join(work, name)
+        form = mode['argform']
+        if name == DEVNULL:
+            args[k] = name
+        elif form == 'abs':
+            args[k] = path
+        elif form == 'file' and os.path.isfile(path):
+            args[k] = io.open(path, encoding='utf8')
+        elif form == 'blob' and os.path.isfile(path):
+            with io.open(path, encoding='utf8') as fh:
+                args[k] = _Blob(fh.read())
+            args[k].name = name
+        else:
+            args[k] = name
+    return args
+
+
+def cli_params(mode, root):
+    """run the real entry point of the mode on a command line, with run_server / browse replaced by recorders:
+    returns the keyword arguments the entry point starts the server with"""
+    from nbdime.webapp import nbdimeserver, nbdiffweb, nbmergeweb, nbdifftool, nbmergetool
+    work = os.path.join(root, 'work')
+    os.environ['JUPYTER_CONFIG_DIR'] = os.path.join(root, 'no-such-config-dir')
+    os.environ['JUPYTER_NO_CONFIG'] = '1'
+    got = []
+
+    def recorder(**kw):
+        got.append(kw)
+        return 0
+    for mod in (nbdiffweb, nbmergeweb, nbdifftool, nbmergetool):
+        mod.run_server = recorder
+        for name in ('browse', 'browse_util'):
+            if hasattr(mod, name):
+                setattr(mod, name, lambda *a, **k: None)
+    nbdimeserver.main_server = recorder
+    web = ['--ip', '127.0.0.1', '--base-url', mode['base_url']]
+    if mode['cwd'] == 'param':
+        web += ['-w', work]
+    else:
+        os.chdir(work)                 # default of --workdirectory: the process cwd at start
+    kind = mode['kind']
+    if kind == 'plain' and mode['entry'] == 'server':
+        nbdimeserver.main(['--port', '0'] + web)
+        return got[0]
+    web += [] if mode['closable'] else ['--persist']
+    if kind == 'plain':
+        nbdiffweb.main([os.path.join(work, T1['base']), os.path.join(work, T1['remote'])] + web)
+    elif kind == 'mergeweb':
+        argv = [os.path.join(work, T1[k]) for k in ('base', 'local', 'remote')]
+        if mode['out']:
+            argv += ['--out', subst(mode['out'], root)]
+        if not mode.get('show_base', True):
+            argv += ['--no-base']
+        nbmergeweb.main(argv + web)
+    elif kind == 'difftool':
+        vals = _tool_values(mode, root)
+        if mode['argform'] in ('file', 'blob'):
+            # nbdiffweb on two git revisions: one difftool server per changed notebook, blobs as file-likes
+            nbdiffweb.changed_notebooks = lambda *a, **k: iter([(vals['base'], vals['remote'])])
+            opts = nbdiffweb.build_arg_parser().parse_args(['HEAD~1', 'HEAD'] + web)
+            nbdiffweb.process_diff_flags(opts)
+            nbdiffweb.handle_gitrefs('HEAD~1', 'HEAD', None, opts)
+        else:
+            nbdifftool.main([vals['base'], vals['remote']] + web)
+    elif kind == 'mergetool':
+        vals = _tool_values(mode, root)
+        nbmergetool.main([vals['base'], vals['local'], vals['remote'], subst(mode['out'], root)] + web)
+    if len(got) != 1:
+        raise _defect('entry point of %r started %d servers' % (mode, len(got)))
+    return got[0]
+
+
 def build_params(mode, root):
     work = os.path.join(root, 'work')
-    p = {'port': 0, 'ip': '127.0.0.1', 'base_url': mode['base_url']}
+    if mode.get('via') == 'cli':
+        p = dict(cli_params(mode, root))
+        p.pop('on_port', None)
+        p.setdefault('closable', False)
+        return p
+    p = {'port': 0, 'ip': '127.0.0.1', 'base_url': mode['base_url'], 'closable': mode['closable']}
     if mode['cwd'] == 'param':
         p['cwd'] = work
     else:
@@ -481,26 +574,7 @@ def build_params(mode, root):
     if mode['kind'] == 'mergetool':
         p['outputfilename'] = subst(mode['out'], root) if mode['out'] else None
     if mode['kind'] in ('difftool', 'mergetool'):
-        names, _ = tool_args(mode)
-        args = {}
-        for k, name in names.items():
-            path = os.path.join(work, name)
-            form = mode['argform']
-            if name == DEVNULL:
-                args[k] = name
-            elif form == 'rel':
-                args[k] = name
-            elif form == 'abs':
-                args[k] = path
-            elif form == 'file' and os.path.isfile(path):
-                args[k] = io.open(path, encoding='utf8')
-            elif form == 'blob' and os.path.isfile(path):
-                with io.open(path, encoding='utf8') as fh:
-                    args[k] = _Blob(fh.read())
-                args[k].name = name
-            else:
-                args[k] = name
-        p['difftool_args' if mode['kind'] == 'difftool' else 'mergetool_args'] = args
+        p['difftool_args' if mode['kind'] == 'difftool' else 'mergetool_args'] = _tool_values(mode, root)
     return p
 
 
@@ -538,12 +612,32 @@ def serve(root, case, reqs):
     from tornado.simple_httpclient import SimpleAsyncHTTPClient
     from nbdime.webapp import nbdimeserver
     mode = case['mode']
-    params = build_params(mode, root)
     answers = []
+
+    def startup_failure(exc):
+        """an exception raised by nbdime's own start-up code for a valid command line / parameter set is nbdime's
+        behaviour; anything else is a defect of this harness"""
+        from .mergeoracles import exc_site, exc_summary
+        if not any(os.sep + 'nbdime' + os.sep in f.filename for f in traceback.extract_tb(exc.__traceback__)):
+            return False
+        answers.append({'startup': exc_site(exc), 'text': exc_summary(exc)})
+        return True
+
+    try:
+        params = build_params(mode, root)
+    except Exception as exc:
+        if startup_failure(exc):
+            return answers
+        raise
 
     async def main():
         ports = []
-        app, server = nbdimeserver.init_app(on_port=ports.append, closable=mode['closable'], **params)
+        try:
+            app, server = nbdimeserver.init_app(on_port=ports.append, **params)
+        except Exception as exc:
+            if startup_failure(exc):
+                return
+            raise
         if len(ports) != 1:
             raise _defect('init_app reported ports %r' % (ports,))
         loop = ioloop.IOLoop.current()
@@ -593,6 +687,8 @@ def sweep(root, case):
     reqs = [{'ep': 'sweep', 'method': method, 'rel': rel, 'query': '', 'body': {'raw': '{}'} if method == 'POST' else None}
             for method, rel in DOCUMENTED]
     answers = forked(serve, root, case, reqs)
+    if answers and 'startup' in answers[0]:
+        return []                          # reported by run_case
     return [(rq['method'], rq['rel'], a['status']) for rq, a in zip(reqs, answers)]
 
 
@@ -797,6 +893,8 @@ def run_case(case, keep=None, history=True):
         start = initial_tree(case)
         restore(root, start)
         answers = forked(serve, root, case, reqs)
+        if answers and 'startup' in answers[0]:
+            return [('crash:startup:' + answers[0]['startup'], 'the server cannot be started in this mode: %s' % answers[0]['text'], idx[0])], notes, stats
         for k, rq in enumerate(reqs):
             stats[(rq['ep'], rq['cls'])] = stats.get((rq['ep'], rq['cls']), 0) + 1
             if k >= len(answers):
